@@ -410,13 +410,13 @@ pub fn run(a: &Args) {
         return;
     }
     if a.shard == 0 {
-        placement(&mut r);
+        guarded(&mut r, "C12|placement|unexpected-panic", || "placement".into(), |r| placement(r));
         for x in canon() {
-            encoding_case(&mut r, x);
+            guarded(&mut r, "C12|set_handler_addr|unexpected-panic", || format!("gateaddr {:#x}", x), |r| encoding_case(r, x));
         }
-        options_search(&mut r);
-        missing_reset(&mut r);
-        crate::c12load::run(&mut r);
+        guarded(&mut r, "C12|option setters|unexpected-panic", || "gateopts".into(), |r| options_search(r));
+        guarded(&mut r, "C12|new/reset/missing|unexpected-panic", || "missing".into(), |r| missing_reset(r));
+        guarded(&mut r, "C12|load|unexpected-panic", || "load".into(), |r| crate::c12load::run(r));
     }
     ranges(&mut r, a);
     r.exhaustive = true;
